@@ -183,7 +183,7 @@ impl Check for C04Check {
     }
     fn cases(&self, tier: Tier) -> u64 {
         match tier {
-            Tier::Quick => 4_000,
+            Tier::Quick => 12_000,
             Tier::Thorough => 60_000,
         }
     }
